@@ -102,6 +102,12 @@ type propCfg struct {
 var root string
 var curFinding string
 
+// minimisation budget: quick tier keeps the whole check near its time box
+var (
+	maxReports   = 6
+	shrinkBudget = 90 * time.Second
+)
+
 func envGo() []string {
 	env := os.Environ()
 	env = append(env, "GOFLAGS=-mod=mod", "GOPROXY=off", "GOSUMDB=off", "GOTOOLCHAIN=local", "CGO_ENABLED="+cgo)
@@ -419,6 +425,7 @@ func main() {
 	}
 	if *tier != "thorough" {
 		*tier = "quick"
+		maxReports, shrinkBudget = 3, 30*time.Second
 	}
 	pc, ok := props[*prop]
 	if !ok {
@@ -493,6 +500,9 @@ func main() {
 						break
 					}
 					remain := time.Until(deadline)
+					if remain < time.Second {
+						break
+					}
 					args := []string{"-sim.prop=" + *prop, "-sim.tier=" + *tier, fmt.Sprintf("-sim.from=%d", from), fmt.Sprintf("-sim.count=%d", count), "-sim.budget=" + remain.String()}
 					if *features != "" {
 						args = append(args, "-sim.features="+*features)
@@ -577,7 +587,7 @@ func main() {
 			continue
 		}
 		newViol = append(newViol, sig)
-		if len(reports) >= 6 {
+		if len(reports) >= maxReports {
 			continue
 		}
 		r := rs[0]
@@ -811,7 +821,7 @@ func minimise(bin, prop, tier, features string, r Result, sig string, noShrink b
 			return "", false
 		}
 	}
-	budgetOK := func() bool { return tries < 400 && time.Since(startT) < 90*time.Second }
+	budgetOK := func() bool { return tries < 400 && time.Since(startT) < shrinkBudget }
 	if !noShrink {
 		// 1. shortest prefix (zeros beyond)
 		lo, hi := 0, len(cur)
